@@ -757,3 +757,86 @@ def index_damage_program(rng, lanes=ALL_LANES, nrec=3, flips="sample", cuts="all
         observe(extra_append=(rng.random() < 0.08))
         prog["steps"].append({"op": "env_bucket", "key": k, "mode": "restore", "slot": "orig"})
     return prog
+
+
+# ---------------------------------------------------------------------------------------
+# hostile directory states (C20, totality mode), lane variants (C12), reference-written caches (C17)
+# ---------------------------------------------------------------------------------------
+
+def hostile_state_program(rng, lanes=ALL_LANES):
+    prog = {"keys": {}, "blobs": {}, "steps": []}
+    k = add_key(prog, rand_key(rng, 0))
+    k2 = add_key(prog, rand_key(rng, 1))
+    d = _mk_data(prog, rng, 20)
+    d2 = _mk_data(prog, rng, 7)
+    prog["steps"].append({"op": "write", "lane": rng.choice(lanes), "key": k, "data": d, "algo": "sha256"})
+    action = rng.choice(["bucket_dir", "content_dir", "tmp_file", "index_file", "content_file", "root_gone",
+                         "bucket_fifo_like_empty"])
+    st = {"op": "env_raw", "action": action, "key": rng.choice([k, k2]), "algo": "sha256", "blob": d}
+    prog["steps"].append(st)
+    kk = st["key"]
+    for lane in lanes:
+        ops = [{"op": "metadata", "lane": lane, "key": kk}, {"op": "read", "lane": lane, "key": kk},
+               {"op": "read", "lane": lane, "sri": [{"a": "sha256", "d": d}]},
+               {"op": "exists", "lane": lane, "sri": [{"a": "sha256", "d": d}]},
+               {"op": "list", "lane": lane},
+               {"op": "extract", "lane": lane, "kind": "copy", "checked": True, "to": "x" + lane, "key": kk},
+               {"op": "write", "lane": lane, "key": kk, "data": d2, "algo": "sha256"},
+               {"op": "write", "lane": lane, "data": d, "algo": "sha256"},
+               {"op": "remove", "lane": lane, "key": kk},
+               {"op": "remove_hash", "lane": lane, "sri": [{"a": "sha256", "d": d}]},
+               {"op": "remove_fully", "lane": lane, "key": kk},
+               {"op": "open_writer", "lane": lane, "key": kk, "opts": {"algo": "sha256", "size": 7}, "as": "w" + lane, "plan": d2},
+               {"op": "w_write", "lane": lane, "h": "w" + lane, "data": d2},
+               {"op": "w_commit", "lane": lane, "h": "w" + lane},
+               {"op": "open_reader", "lane": lane, "key": kk, "as": "r" + lane},
+               {"op": "r_read", "lane": lane, "h": "r" + lane, "n": 100, "all": True},
+               {"op": "r_check", "lane": lane, "h": "r" + lane}]
+        rng.shuffle(ops)
+        # keep handle ops in order
+        hs = [o for o in ops if "h" in o or "as" in o]
+        hs.sort(key=lambda o: ["open_writer", "w_write", "w_commit", "open_reader", "r_read", "r_check"].index(o["op"]))
+        ops = [o for o in ops if not ("h" in o or "as" in o)] + hs
+        prog["steps"] += ops
+    prog["steps"].append({"op": "clear", "lane": rng.choice(lanes)})
+    return prog
+
+
+def with_lanes(prog, assign):
+    """the same program with lanes re-assigned: assign(i, step) -> lane"""
+    p = dict(prog)
+    steps = []
+    for i, st in enumerate(prog["steps"]):
+        st = dict(st)
+        if "lane" in st:
+            st["lane"] = assign(i, st)
+        steps.append(st)
+    p["steps"] = steps
+    return p
+
+
+def refwrite_program(rng, nrec, lanes=ALL_LANES):
+    """C17, reference writes / library reads: the whole cache is produced by the independent
+    writer (content files at their addresses, index records appended to their buckets)"""
+    prog = {"keys": {}, "blobs": {}, "steps": []}
+    keys = [add_key(prog, rand_key(rng, i)) for i in range(4)]
+    datas = [_mk_data(prog, rng, n) for n in (0, 3, 200, 5000)]
+    addrs = set()
+    for i in range(nrec):
+        k = rng.choice(keys)
+        d = rng.choice(datas)
+        a = rng.choice(["sha256", "sha512", "sha1", "sha384"])
+        if rng.random() < 0.8:
+            prog["steps"].append({"op": "env_content", "algo": a, "blob": d, "mode": "replace", "with": d})
+            addrs.add((a, d))
+        tomb = rng.random() < 0.2
+        meta = rand_json(rng)
+        raw = None if rng.random() < 0.6 else [rng.randrange(256) for _ in range(rng.randrange(0, 20))]
+        prog["steps"].append({"op": "env_bucket", "key": k, "mode": "plant",
+                              "entry": {"key": k, "sri": None if tomb else [{"a": a, "d": d}],
+                                        "time": rand_time(rng), "size": rng.randrange(0, 2 ** 31 - 1),
+                                        "metadata": meta, "raw_metadata": raw}})
+        if rng.random() < 0.5:
+            observe_all(prog, rng, lanes, keys, sorted(addrs), read=True)
+    observe_all(prog, rng, lanes, keys, sorted(addrs), read=True)
+    return prog
